@@ -47,7 +47,8 @@ type State struct {
 	wm    string            // allocation watermark
 	dead  bool
 	iters map[ssa.Value]string // map-range iterators: visited predicate symbol
-	lock  map[string]string    // ghost lock state per mutex ref term: Int const (0 none,1 R,2 W)
+	lock  map[string]string    // unused
+	armed map[*ssa.Defer]string // Bool term: the defer statement has executed on this path
 }
 
 func (s *State) clone() *State {
@@ -68,6 +69,10 @@ func (s *State) clone() *State {
 	for k, v := range s.lock {
 		n.lock[k] = v
 	}
+	n.armed = make(map[*ssa.Defer]string, len(s.armed))
+	for k, v := range s.armed {
+		n.armed[k] = v
+	}
 	return n
 }
 
@@ -81,6 +86,7 @@ type Loc struct {
 	// for struct-typed locations: the ref of the struct object
 	structRef string
 	nilCheck  string // ref term that must be non-nil for the access (or "")
+	localArray bool  // element of an array object (varargs temporaries): not subject to element invariants on load
 }
 
 type FV struct {
@@ -133,6 +139,11 @@ type FV struct {
 	scriptRegion []int
 	region       int
 	regionCount  int
+	rootOf       map[string]string // derived ref term -> the object it lies in
+	suppressObl  bool              // apply a contract without emitting its precondition obligations (already proved at this site)
+	alias        map[string]string // contract parameter name -> implementation parameter name (interface refinement)
+	nameSuffix   string
+	lockKeys     []string
 }
 
 type LoopInfo struct {
@@ -419,6 +430,9 @@ func (fv *FV) oblige(st *State, kind, label string, goal string, pos token.Pos, 
 	if fv.safetyOff[kind] {
 		return nil
 	}
+	if fv.suppressObl {
+		return nil
+	}
 	base := fmt.Sprintf("%s.%s#%s{%s}", shortPkg(fv.pkgPath), fv.relName, kind, label)
 	fv.kindCount[base]++
 	name := base
@@ -518,7 +532,7 @@ func (fv *FV) merge(name string, edges []*State) *State {
 		}
 	}
 	if len(live) == 0 {
-		return &State{reach: "false", dead: true, cells: map[*ssa.Alloc]string{}, heap: map[string]string{}, iters: map[ssa.Value]string{}, lock: map[string]string{}, wm: fv.wm0}
+		return &State{reach: "false", dead: true, cells: map[*ssa.Alloc]string{}, heap: map[string]string{}, iters: map[ssa.Value]string{}, lock: map[string]string{}, armed: map[*ssa.Defer]string{}, wm: fv.wm0}
 	}
 	if len(live) == 1 {
 		s := live[0].clone()
@@ -527,7 +541,7 @@ func (fv *FV) merge(name string, edges []*State) *State {
 		s.reach = r
 		return s
 	}
-	n := &State{cells: map[*ssa.Alloc]string{}, heap: map[string]string{}, iters: map[ssa.Value]string{}, lock: map[string]string{}}
+	n := &State{cells: map[*ssa.Alloc]string{}, heap: map[string]string{}, iters: map[ssa.Value]string{}, lock: map[string]string{}, armed: map[*ssa.Defer]string{}}
 	var conds []string
 	for _, e := range live {
 		conds = append(conds, e.reach)
@@ -644,6 +658,45 @@ func (fv *FV) merge(name string, edges []*State) *State {
 		}
 		if ok {
 			n.iters[it] = sym
+		}
+	}
+	// armed defers
+	{
+		all := map[*ssa.Defer]bool{}
+		for _, e := range live {
+			for d := range e.armed {
+				all[d] = true
+			}
+		}
+		n.armed = map[*ssa.Defer]string{}
+		for d := range all {
+			same := true
+			first, ok0 := live[0].armed[d]
+			if !ok0 {
+				first = "false"
+			}
+			for _, e := range live[1:] {
+				t, ok := e.armed[d]
+				if !ok {
+					t = "false"
+				}
+				if t != first {
+					same = false
+				}
+			}
+			if same {
+				n.armed[d] = first
+				continue
+			}
+			nc := fv.freshConst("armed", "Bool")
+			for _, e := range live {
+				t, ok := e.armed[d]
+				if !ok {
+					t = "false"
+				}
+				fv.assumeGlobal(implies(e.reach, eq(nc, t)))
+			}
+			n.armed[d] = nc
 		}
 	}
 	// locks
